@@ -145,8 +145,8 @@ def build(reg):
         note='kept entries are written back unchanged; new entries are numbered around kept directories'))
     units[-1].dyn = False
     units += collect_paths(reg)
+    units += by_name_units(reg)
     units += [Watch(F, 'DevelopDirOracle.__fmt', 'keeps an old mapping if the base directory still matches'), Watch(F, 'DevelopDirOracle.__touch', 'graph traversal'),
-              Watch('pym/bob/state.py', '_BobState.getByNameDirectory', 'release mode counters'),
               Watch('pym/bob/cmds/build/clean.py', 'doClean', 'see C12 for the dry-run contract')]
     return units
 
@@ -229,3 +229,82 @@ def collect_paths(reg):
               result=SD, locals_types={'paths': SD, 'done': SD}, note='directories that bob clean must keep')
     u2.dyn_literals = False
     return [u, u2]
+
+
+# ---------------------------------------------------------------------------------------------------------------------
+# _BobState.getByNameDirectory (pym/bob/state.py): release mode directory assignment.  The persistent table __byNameDirs is ONE
+# Python dict with two kinds of keys: step digest (bytes) -> (directory, isSourceDir) and base directory (str) -> last
+# number handed out.  It is modelled as an object with two typed maps; the real code's `in`, [], setdefault and item
+# assignment are dispatched on the key type.  Class invariant WF: every recorded directory is base/<n> with
+# 1 <= n <= counter[base], and different digests have different directories.  Proved: the call keeps WF, a known digest
+# keeps its directory (table unchanged), a new digest gets a directory no other digest has, all other entries unchanged.
+def by_name_units(reg):
+    FS = 'pym/bob/state.py'; BS = 'bob.state._BobState'; BND = 'ByNameDirs'
+    ENT = TupleT(STR, BOOL); DIRS = DictT(BYTES, ENT); CNT = DictT(STR, INT)
+    reg.classes[BND] = ClassSpec(BND, {'dirs': DIRS, 'cnt': CNT})
+    reg.classes[BS] = ClassSpec(BS, {'_BobState__byNameDirs': ObjT(BND)})
+    oe = opt(ENT); oi = opt(INT)
+    def part(eng, st, c, key):
+        if not (isinstance(c.t, ObjT) and c.t.cls == BND): return None
+        if key.t == BYTES: return eng.getfield(st, c, 'dirs')
+        if key.t == STR: return eng.getfield(st, c, 'cnt')
+        raise Unsupported('byNameDirs key of type %s' % key.t)
+    prev_contains = reg.contains_hook; prev_index = reg.index_hook; prev_set = reg.setitem_hook
+    def contains_hook(eng, st, cont, x, node):
+        p = part(eng, st, cont, x)
+        if p is not None: return eng.contains(st, p, x, node)
+        return prev_contains(eng, st, cont, x, node) if prev_contains else None
+    def index_hook(eng, st, c, i, node):
+        p = part(eng, st, c, i)
+        if p is not None: return eng.index(st, p, i, node)
+        return prev_index(eng, st, c, i, node) if prev_index else None
+    def setitem_hook(eng, st, c, k, v, node):
+        p = part(eng, st, c, k)
+        if p is not None: return eng.setitem(st, p, k, v, node)
+        return prev_set(eng, st, c, k, v, node) if prev_set else None
+    reg.contains_hook = contains_hook; reg.index_hook = index_hook; reg.setitem_hook = setitem_hook
+    def setdefault(eng, st, args, kw, node):
+        p = part(eng, st, args[0], args[1])
+        return eng.call_builtin_method(st, p, 'setdefault', args[1:], kw, node)
+    reg.models[BND + '.setdefault'] = setdefault
+    reg.models[BS + '.__save'] = lambda e, st, a, kw, n: [(st, mk_none())]
+    reg.models[BS + '._BobState__save'] = reg.models[BS + '.__save']
+    reg.trusted += ['_BobState.__save (persisting the table) is a no-op for this contract: its crash/atomicity behaviour is proved under C10',
+                    'the single dict __byNameDirs (bytes keys: digests, str keys: base directories) is modelled as two typed maps selected by the key type']
+    def WF(v):
+        D = v.self.f('__byNameDirs').dirs.z; C = v.self.f('__byNameDirs').cnt.z
+        d1, d2 = z3.Consts('wd1 wd2', B)
+        has = lambda d: z3.Not(opt_is_none(oe, z3.Select(D, d)))
+        path = lambda d: tup_get(ENT, opt_val(oe, z3.Select(D, d)), 0)
+        BASE = z3.Function('BND_base', B, S); NUM = z3.Function('BND_num', B, I)       # ghost witnesses: where a directory came from
+        cnt = lambda b: z3.If(opt_is_none(oi, z3.Select(C, b)), 0, opt_val(oi, z3.Select(C, b)))
+        return [('recorded-directories-are-numbered-below-the-counter', z3.ForAll([d1], z3.Implies(has(d1),
+                    z3.And(path(d1) == JOINP(BASE(d1), STRI(NUM(d1))), 1 <= NUM(d1), NUM(d1) <= cnt(BASE(d1)))), patterns=[z3.Select(D, d1)])),
+                ('counters-are-not-negative', z3.ForAll([z3.String('wb')], z3.Implies(z3.Not(opt_is_none(oi, z3.Select(C, z3.String('wb')))), opt_val(oi, z3.Select(C, z3.String('wb'))) >= 0), patterns=[z3.Select(C, z3.String('wb'))])),
+                ('different-digests-have-different-directories', z3.ForAll([d1, d2], z3.Implies(z3.And(has(d1), has(d2), d1 != d2), path(d1) != path(d2)),
+                    patterns=[z3.MultiPattern(z3.Select(D, d1), z3.Select(D, d2))]))], BASE, NUM
+    def req(s): return WF(s)[0]
+    def post(o, n, r):
+        D0 = o.self.f('__byNameDirs').dirs.z; D1 = n.self.f('__byNameDirs').dirs.z; C0 = o.self.f('__byNameDirs').cnt.z; C1 = n.self.f('__byNameDirs').cnt.z
+        dg = o.digest.z; known = z3.Not(opt_is_none(oe, z3.Select(D0, dg)))
+        d = z3.Const('pd', B)
+        has0 = lambda x: z3.Not(opt_is_none(oe, z3.Select(D0, x)))
+        return z3.And(
+            z3.Implies(known, z3.And(r.z == tup_get(ENT, opt_val(oe, z3.Select(D0, dg)), 0), D1 == D0, C1 == C0)),
+            z3.Implies(z3.Not(known), z3.And(
+                z3.Not(opt_is_none(oe, z3.Select(D1, dg))), tup_get(ENT, opt_val(oe, z3.Select(D1, dg)), 0) == r.z,
+                z3.ForAll([d], z3.Implies(d != dg, z3.Select(D1, d) == z3.Select(D0, d)), patterns=[z3.Select(D1, d)]),
+                z3.ForAll([d], z3.Implies(has0(d), tup_get(ENT, opt_val(oe, z3.Select(D0, d)), 0) != r.z), patterns=[z3.Select(D0, d)]))))
+    def wf_kept(o, n, r, only):
+        # the invariant holds again with the witness of the new digest being (baseDir, counter + 1)
+        cl, BASE, NUM = WF(n)
+        D0 = o.self.f('__byNameDirs').dirs.z; C0 = o.self.f('__byNameDirs').cnt.z; dg = o.digest.z
+        cnt0 = z3.If(opt_is_none(oi, z3.Select(C0, o.baseDir.z)), 0, opt_val(oi, z3.Select(C0, o.baseDir.z)))
+        new = opt_is_none(oe, z3.Select(D0, dg))
+        hyp = z3.Implies(new, z3.And(BASE(dg) == o.baseDir.z, NUM(dg) == cnt0 + 1))
+        return z3.Implies(hyp, [c for nm, c in cl if nm == only][0])
+    u = Unit(FS, '_BobState.getByNameDirectory', {'self': ObjT(BS), 'baseDir': STR, 'digest': BYTES, 'isSourceDir': BOOL}, 'C16', result=STR,
+             requires=req, ensures=[('known-digest-keeps-its-directory-new-digest-gets-an-unused-one-others-unchanged', post), ] + [('table-invariant-kept:' + nm, (lambda o, n, r, nm=nm: wf_kept(o, n, r, nm))) for nm in ('recorded-directories-are-numbered-below-the-counter', 'counters-are-not-negative', 'different-digests-have-different-directories')],
+             modifies=['self.__byNameDirs.dirs', 'self.__byNameDirs.cnt'], note='release mode: directory table stays injective and numbered below the per-base counters')
+    u.dyn = False
+    return [u]
